@@ -36,6 +36,7 @@ void DataNode :: Init(const String & name, const ConstMessageRef & initData)
    _parent             = NULL;
    _depth              = 0;
    _maxChildIDHint     = 0;
+   _orderedCounter     = 0;  // a recycled DataNode must not go on numbering its ordered children where its previous life left off
    _data               = initData;
    _cachedDataChecksum = INVALID_CACHED_CHECKSUM;
 }
